@@ -1,48 +1,17 @@
-use redb::*;
-use rv::backend::MonBackend;
-const A: TableDefinition<u64, &[u8]> = TableDefinition::new("A0");
+use rv::checks::c19::Mem3;
+use rv::fmt::*;
+use std::sync::{Arc, Mutex};
 fn main() {
-    let args: Vec<String> = std::env::args().collect();
-    let page: usize = args.get(1).and_then(|s| s.parse().ok()).unwrap_or(4096);
-    let n: u64 = args.get(2).and_then(|s| s.parse().ok()).unwrap_or(30);
-    let mut be = MonBackend::new();
-    let mk = |be: &MonBackend| {
-        let mut b = Database::builder();
-        b.verif_set_page_size(page);
-        b.verif_set_region_size(32 * page as u64);
-        b.create_with_backend(be.clone()).unwrap()
-    };
-    let db = mk(&be);
-    for round in 0..3 {
-        let txn = db.begin_write().unwrap();
-        {
-            let mut t = txn.open_table(A).unwrap();
-            for i in 0..n {
-                t.insert(i * 7 + round, vec![1u8; 700].as_slice()).unwrap();
-            }
-            for i in 0..n / 2 {
-                t.remove(i * 14 + round).unwrap();
-            }
-        }
-        txn.commit().unwrap();
-    }
-    drop(db);
-    println!("closed len L0 = {}", be.lock().data.len());
-    for k in 1..=4 {
-        be = MonBackend::from_image(be.image());
-        let mut db = mk(&be);
-        let open_before = be.lock().data.len();
-        let r = db.compact().unwrap();
-        let open_after = be.lock().data.len();
-        drop(db);
-        println!("compact #{k}: returned {r}; open before {open_before}, at return {open_after}, after close {}", be.lock().data.len());
-    }
-    // two compactions without closing in between
-    be = MonBackend::from_image(be.image());
-    let mut db = mk(&be);
-    for k in 1..=3 {
-        let b = be.lock().data.len();
-        let r = db.compact().unwrap();
-        println!("same-session compact #{k}: returned {r}; before {b}, at return {}", be.lock().data.len());
+    for p in std::env::args().skip(1) {
+        let img = std::fs::read(&p).unwrap();
+        let Ok((f, d)) = check_image(&img, false) else { println!("{p}: undecodable"); continue };
+        let Some(a) = f.alloc_state.as_ref() else { println!("{p}: no alloc state (crash image)"); continue };
+        let lens: Vec<u32> = a.regions.iter().map(|r| BuddyImage::parse(r).unwrap().num_pages).collect();
+        let m = Mem3(Arc::new(Mutex::new(img.clone())));
+        let r = std::panic::catch_unwind(|| {
+            let mut db = redb3::Database::builder().create_with_backend(m.clone()).unwrap();
+            db.check_integrity().map_err(|e| e.to_string())
+        });
+        println!("{p}: file pages {} saved allocator pages {:?} -> 3.0.0 check_integrity {:?}", d.layout.trailing_pages, lens, r.ok());
     }
 }
